@@ -164,49 +164,61 @@ Lemma sw_star_id l : existsb hit l = false -> sw_star A B l = l.
 Proof. unfold sw_star. intros ->. reflexivity. Qed.
 
 (* ---- statements ---- *)
+Lemma stmt_ext a0 a1 a2 a3 a4 a5 a6 a7 a8 a9 a10 a11 a12 a13 a14 a15 a16 b1 b2 b3 b4 b5 b6 b7 b8 b9 b10 b11 b12 b13 b14 b15 b16 :
+  a1 = b1 -> a2 = b2 -> a3 = b3 -> a4 = b4 -> a5 = b5 -> a6 = b6 -> a7 = b7 -> a8 = b8 -> a9 = b9 -> a10 = b10 ->
+  a11 = b11 -> a12 = b12 -> a13 = b13 -> a14 = b14 -> a15 = b15 -> a16 = b16 ->
+  Build_stmt a0 a1 a2 a3 a4 a5 a6 a7 a8 a9 a10 a11 a12 a13 a14 a15 a16
+  = Build_stmt a0 b1 b2 b3 b4 b5 b6 b7 b8 b9 b10 b11 b12 b13 b14 b15 b16.
+Proof. intros; subst; reflexivity. Qed.
+
+Lemma rep_withs_ok s :
+  (if vis (skind s) S__with then match s_with s with [] => true | _ => false end
+   else negb (existsb (fun p => occ_q A (snd p)) (s_with s))) = true ->
+  rep_withs A B s = Ok (map (fun p => (fst p, subst_q A B (snd p))) (s_with s)).
+Proof.
+  unfold rep_withs. intro HW. destruct (vis (skind s) S__with).
+  - destruct (s_with s); [reflexivity | discriminate].
+  - apply negb_true_iff in HW. f_equal. symmetry.
+    apply (map_id_existsb (fun p => occ_q A (snd p))); auto. intros [n q] E. simpl in *. rewrite (occ_q_id q E). reflexivity.
+Qed.
+
+Lemma rep_joins_ok s :
+  (if vis (skind s) S__joins then forallb (cov_join A) (s_joins s) else negb (existsb (occ_join A) (s_joins s))) = true ->
+  rep_joins A B s = Ok (map (subst_join A B) (s_joins s)).
+Proof.
+  unfold rep_joins. intro HJ. destruct (vis (skind s) S__joins).
+  - apply mapM_joins. assumption.
+  - apply negb_true_iff in HJ. f_equal. symmetry. apply (map_id_existsb (occ_join A)); auto. apply occ_join_id.
+Qed.
+
+Ltac slot S := match goal with Hx : cov1 (vis _ S) _ _ = true |- _ => apply (ifv_ok _ _ _ _ _ _ Hx) end.
+
 Theorem cov_stmt_ok s : cov_stmt A s = true -> rep_stmt A B s = Ok (subst_stmt A B s).
 Proof.
-  unfold cov_stmt, rep_stmt, subst_stmt. cbv zeta. set (k := skind s). intro H. andb_split H.
-  (* WITH *)
-  match goal with |- match ?X with Ok _ => _ | Err _ => _ end = _ =>
-    assert (W : X = Ok (map (fun p => (fst p, subst_q A B (snd p))) (s_with s))) end.
-  { match goal with Hx : (if vis k S__with then _ else _) = true |- _ => rename Hx into HW end.
-    destruct (vis k S__with).
-    - destruct (s_with s); [reflexivity | discriminate].
-    - apply negb_true_iff in HW. f_equal. symmetry.
-      apply (map_id_existsb (fun p => occ_q A (snd p))); auto. intros [n q] E. simpl in *. rewrite (occ_q_id q E). reflexivity. }
-  rewrite W. clear W.
-  (* JOINS *)
-  match goal with |- match ?X with Ok _ => _ | Err _ => _ end = _ =>
-    assert (J : X = Ok (map (subst_join A B) (s_joins s))) end.
-  { match goal with Hx : (if vis k S__joins then _ else _) = true |- _ => rename Hx into HJ end.
-    destruct (vis k S__joins).
-    - apply mapM_joins. assumption.
-    - apply negb_true_iff in HJ. f_equal. symmetry. apply (map_id_existsb (occ_join A)); auto. apply occ_join_id. }
-  rewrite J. clear J.
-  f_equal.
-  Ltac slot k S := match goal with Hx : cov1 (vis k S) _ _ = true |- _ => apply (ifv_ok _ _ _ _ _ _ Hx) end.
-  f_equal.
-  - slot k S__from; [apply map_ext_forallb; apply cov_src_ok | apply map_id_existsb; apply occ_src_id].
-  - slot k S__insert_table; [reflexivity | apply subst_otbl_id].
-  - slot k S__update_table; [reflexivity | apply subst_otbl_id].
-  - slot k S__selects; [apply cov_ws_ok | apply occ_ws_id].
-  - slot k S__columns; [apply covs_ok | apply occs_id].
-  - slot k S__values; [apply map_ext_forallb; apply cov_ws_ok | apply map_id_existsb; apply occ_ws_id].
-  - slot k S__wheres; [apply cov_ow_ok | apply occ_ow_id].
-  - slot k S__prewheres; [apply cov_ow_ok | apply occ_ow_id].
-  - slot k S__groupbys; [apply cov_ws_ok | apply occ_ws_id].
-  - slot k S__havings; [apply cov_ow_ok | apply occ_ow_id].
-  - slot k S__orderbys.
+  unfold cov_stmt, rep_stmt. cbv zeta. intro H. andb_split H.
+  match goal with Hx : (if vis _ S__with then _ else _) = true |- _ => rewrite (rep_withs_ok s Hx) end.
+  match goal with Hx : (if vis _ S__joins then _ else _) = true |- _ => rewrite (rep_joins_ok s Hx) end.
+  apply f_equal. unfold rep_stmt_core, subst_stmt. cbv zeta. apply stmt_ext; try reflexivity.
+  - slot S__from; [apply map_ext_forallb; apply cov_src_ok | apply map_id_existsb; apply occ_src_id].
+  - slot S__insert_table; [reflexivity | apply subst_otbl_id].
+  - slot S__update_table; [reflexivity | apply subst_otbl_id].
+  - slot S__selects; [apply cov_ws_ok | apply occ_ws_id].
+  - slot S__columns; [apply covs_ok | apply occs_id].
+  - slot S__values; [apply map_ext_forallb; apply cov_ws_ok | apply map_id_existsb; apply occ_ws_id].
+  - slot S__wheres; [apply cov_ow_ok | apply occ_ow_id].
+  - slot S__prewheres; [apply cov_ow_ok | apply occ_ow_id].
+  - slot S__groupbys; [apply cov_ws_ok | apply occ_ws_id].
+  - slot S__havings; [apply cov_ow_ok | apply occ_ow_id].
+  - slot S__orderbys.
     + apply (map_ext_forallb (fun p => cov_wt A (fst p))). intros [w o] E. simpl in *. rewrite (cov_wt_ok w E). reflexivity.
     + apply (map_id_existsb (fun p => occ_wt A (fst p))). intros [w o] E. simpl in *. rewrite (occ_wt_id w E). reflexivity.
-  - slot k S__updates.
+  - slot S__updates.
     + apply (map_ext_forallb (fun p => covered (fst p) && cov_wt A (snd p))). intros [t w] E. simpl in *.
       apply andb_true_iff in E. destruct E as [E1 E2]. rewrite (covered_rep_subst A B t E1), (cov_wt_ok w E2). reflexivity.
     + apply (map_id_existsb (fun p => occ (fst p) || occ_wt A (snd p))). intros [t w] E. simpl in *.
       apply orb_false_iff in E. destruct E as [E1 E2]. rewrite (occ_subst_id A B t E1), (occ_wt_id w E2). reflexivity.
-  - slot k S__select_star_tables; [reflexivity | apply sw_star_id].
-  - slot k S__limit_by; [apply cov_ws_ok | apply occ_ws_id].
+  - slot S__select_star_tables; [reflexivity | apply sw_star_id].
+  - slot S__limit_by; [apply cov_ws_ok | apply occ_ws_id].
 Qed.
 
 End S.
